@@ -33,6 +33,18 @@ Ifaces(d) == {<<d.hops[i].ia, d.hops[i].in>> : i \in {j \in 1..Len(d.hops) : d.h
         \cup {<<d.hops[i].ia, d.hops[i].eg>> : i \in {j \in 1..Len(d.hops) : d.hops[j].eg # 0}}
         \cup {<<d.hops[d.peers[k][1]].ia, d.peers[k][2]>> : k \in {j \in 1..Len(d.peers) : d.peers[j][2] # 0}}
 
+\* what the "full id" of the databases hashes: per AS entry its (ia, in, eg) followed by the
+\* (peer ia, in, eg) of its peer entries, all concatenated without separators (d.pia = peer ISD-AS)
+RECURSIVE FullSeq(_, _)
+FullSeq(d, i) ==
+    IF i > Len(d.hops) THEN <<>>
+    ELSE LET ps == {k \in 1..Len(d.peers) : d.peers[k][1] = i}
+             PeerTriples[k \in 0..Len(d.peers)] ==
+                 IF k = 0 THEN <<>>
+                 ELSE PeerTriples[k - 1] \o (IF k \in ps THEN << <<d.pia, d.peers[k][2], d.hops[i].eg>> >> ELSE <<>>)
+         IN << <<d.hops[i].ia, d.hops[i].in, d.hops[i].eg>> >> \o PeerTriples[Len(d.peers)] \o FullSeq(d, i + 1)
+FullIDCollision(a, b) == a.id # b.id /\ FullSeq(a, 1) = FullSeq(b, 1)
+
 IsPrefix(pre, id) == Len(pre) <= Len(id) /\ \A i \in 1..Len(pre) : pre[i] = id[i]
 
 Ver(kind, d) == IF kind = "b" THEN d.ts ELSE d.sv
